@@ -58,7 +58,7 @@ RULE = ('histories of 1-30 packets (65% of the sACN ones as whole datagrams - AC
         'deltas -25..+5 (wrap-around included), gaps {0,1us,2.499999,2.5,2.500001,9.999999,10,10.000001 s, '
         'small}, terminate/preview/rev2 flags, start codes, frame lengths {0,1,2,512,513,small}, malformed DMP '
         'header/vector/increment/short PDUs, plus scripted scenarios (7th/8th source, priority hand-over both '
-        'ways, expiry boundary, full sequence sweep); Art-Net from <= 4 addresses (incl. the wildcard address), '
+        'ways, expiry boundary, full sequence sweep); Art-Net from <= 4 addresses (incl. the wildcard address), the ArtDmx Sequence byte generated per sender (0, or independent running counters 0-25 apart incl. 1-19, wrapping 255->1, repeats and out-of-order values; ignored by receiver, model and text), '
         'HTP and LTP (with SetMergeMode switches mid-history; plus whole-node histories over all four output ports with coinciding port addresses, a merge mode per port, ports enabled/disabled/re-addressed and net/subnet changed in mid-history, compared port by port, with the transmissions of the node made to fail and recover in mid-history; and multi-universe sACN histories: one inflator with three universes, the same CIDs on several of them, SetHandler again / RemoveHandler + SetHandler in mid-history, compared per universe), gaps around 10 s, length-field/data-length mismatches; plus static-look histories: a sender repeating a byte-identical frame (sACN: with advancing sequence numbers) in short gaps summing past 10 s / 2.5 s next to a concurrently changing sender, then a late third (sACN: further/7th) sender. Compared after every packet: '
         'callback count, priority byte, registered buffer (SPEC) and the tracked-source tables (internal). '
         'After every packet the model driver also evaluates the extracted text-level specification (TextSpec/TextCheck: text_out, xstep, verdict; Art-Net: atext_step) and prints SPEC key txt = buffer agrees with the property text at every packet, or departs from it only in a classified way (known= hand-down gap / stale after discard / sequence window forgotten); histories with more than six live top-priority sources are not judged (text silent on which six). non-trivial = at least one callback and at least two distinct output buffers in the trace; '
@@ -248,14 +248,43 @@ def gen_sacn_scripted(rng):
     return 'sacn %d 1 %s' % (1 if rng.random() < 0.6 else 0, ','.join(steps))
 
 
-def art_step(dt, addr, data, lenf=None, net=4, univ=0x23):
+class ArtSeq(object):
+    """the ArtDmx Sequence byte: per sender either always 0 (sequencing disabled) or an independent running
+    counter 1..255 (wraps to 1), the senders' counters starting 0..25 apart; occasionally a repeated or
+    out-of-order value.  The text says nothing about it and the receiver ignores it."""
+    def __init__(self, rng):
+        self.rng = rng
+        self.base = rng.choice([1, 50, 100, 236, 250, 255])
+        self.cnt = {}
+        self.mode = {}
+    def next(self, addr):
+        rng = self.rng
+        if addr not in self.cnt:
+            self.mode[addr] = rng.choice(['run', 'run', 'run', 'zero'])
+            off = rng.choice([0, 1, 7, 19, 20, 21, 25, rng.randrange(0, 26)])
+            self.cnt[addr] = (self.base - off - 1) % 255
+        if self.mode[addr] == 'zero':
+            return 0
+        r = rng.random()
+        if r < 0.86:
+            self.cnt[addr] = self.cnt[addr] % 255 + 1
+        elif r < 0.93:
+            pass                                  # repeated sequence number
+        else:
+            self.cnt[addr] = (self.cnt[addr] - rng.randrange(1, 25) - 1) % 255 + 1   # out of order
+        return self.cnt[addr]
+
+
+def art_step(dt, addr, data, lenf=None, net=4, univ=0x23, seq=None):
     if lenf is None:
         lenf = len(data)
-    return '%d:%d:%d:%d:%d:%s' % (dt, addr, net, univ, lenf, hx(data))
+    s = '%d:%d:%d:%d:%d:%s' % (dt, addr, net, univ, lenf, hx(data))
+    return s if seq is None else s + ':%d' % seq
 
 
 def gen_art(rng):
     addrs = rng.choice([[1, 2], [1, 2, 3], [1, 2, 3], [1, 2, 3, 4], [1], [0, 1, 2], [16777226, 167772171, 3]])
+    sq = ArtSeq(rng)
     steps = []
     n = rng.choice([3, 5, 8, 12, 20])
     for _ in range(n):
@@ -273,7 +302,8 @@ def gen_art(rng):
         if r < 0.12: kw['lenf'] = rng.choice([0, 1, 2, max(fl - 1, 0), fl + 1, 512, 513, 65535])
         elif r < 0.16: kw['net'] = rng.choice([0, 3, 5])
         elif r < 0.20: kw['univ'] = rng.choice([0, 0x22, 0x24, 0x33])
-        steps.append(art_step(dt, rng.choice(addrs), data, **kw))
+        a_ = rng.choice(addrs)
+        steps.append(art_step(dt, a_, data, seq=sq.next(a_), **kw))
         if rng.random() < 0.06:
             steps.append('m:%d' % rng.randrange(2))     # SetMergeMode mid-history
     return 'art %d %s' % (1 if rng.random() < 0.4 else 0, ','.join(steps))
@@ -286,8 +316,9 @@ def gen_art_static(rng):
     hi = [rng.randrange(128, 256) for _ in range(n)]          # static sender dominates some slots
     if rng.random() < 0.3:
         hi = rframe(rng, n)
-    steps = [art_step(rng.choice([0, 1000]), 1, hi)]
-    steps.append(art_step(rng.choice([10, 1000, 500000]), 2, [rng.randrange(0, 128) for _ in range(n)]))
+    sq = ArtSeq(rng)
+    steps = [art_step(rng.choice([0, 1000]), 1, hi, seq=sq.next(1))]
+    steps.append(art_step(rng.choice([10, 1000, 500000]), 2, [rng.randrange(0, 128) for _ in range(n)], seq=sq.next(2)))
     t_static = 0          # time since the static sender's first (= last changed) frame
     gap_choices = [999999, 1000000, 2000000, 2499999, 2500000, 3000000, 3333333, 4999999, 5000000]
     target = rng.choice([9999999, 10000000, 10000001, 10500000, 12000000, 15000000, 21000000])
@@ -295,15 +326,15 @@ def gen_art_static(rng):
         g = rng.choice(gap_choices)
         half = rng.randrange(1, g)
         # the static sender repeats its frame, the other one changes
-        steps.append(art_step(half, 1, hi))
-        steps.append(art_step(g - half, 2, [rng.randrange(0, 128) for _ in range(rng.choice([n, n, n + 1, max(2, n - 1)]))]))
+        steps.append(art_step(half, 1, hi, seq=sq.next(1)))
+        steps.append(art_step(g - half, 2, [rng.randrange(0, 128) for _ in range(rng.choice([n, n, n + 1, max(2, n - 1)]))], seq=sq.next(2)))
         t_static += g
     # late third sender, then both regulars again
-    steps.append(art_step(rng.choice([1, 1000, 100000]), 3, [255] * n))
-    steps.append(art_step(rng.choice([1, 1000]), 1, hi if rng.random() < 0.7 else rframe(rng, n)))
-    steps.append(art_step(rng.choice([1, 1000]), 2, [rng.randrange(0, 128) for _ in range(n)]))
+    steps.append(art_step(rng.choice([1, 1000, 100000]), 3, [255] * n, seq=sq.next(3)))
+    steps.append(art_step(rng.choice([1, 1000]), 1, hi if rng.random() < 0.7 else rframe(rng, n), seq=sq.next(1)))
+    steps.append(art_step(rng.choice([1, 1000]), 2, [rng.randrange(0, 128) for _ in range(n)], seq=sq.next(2)))
     if rng.random() < 0.5:
-        steps.append(art_step(rng.choice([1, 1000, 10000001]), 3, [254] * n))
+        steps.append(art_step(rng.choice([1, 1000, 10000001]), 3, [254] * n, seq=sq.next(3)))
     return 'art %d %s' % (1 if rng.random() < 0.5 else 0, ','.join(steps))
 
 
@@ -357,6 +388,7 @@ def gen_artn(rng):
     rng.shuffle(steps)
     addrs = rng.choice([[1, 2], [1, 2, 3], [1, 2, 3, 4], [1]])
     cur = {'net': net, 'subnet': subnet}
+    sq = ArtSeq(rng)
     n = rng.choice([4, 8, 12, 18])
     for _ in range(n):
         r = rng.random()
@@ -372,7 +404,8 @@ def gen_artn(rng):
               'univ': ((cur['subnet'] & 15) << 4) | (u & 15) if rng.random() < 0.93 else rng.randrange(256)}
         if rng.random() < 0.08:
             kw['lenf'] = rng.choice([0, 1, 2, fl + 1, 512])
-        steps.append(art_step(dt, rng.choice(addrs), rframe(rng, fl), **kw))
+        a_ = rng.choice(addrs)
+        steps.append(art_step(dt, a_, rframe(rng, fl), seq=sq.next(a_), **kw))
         r = rng.random()
         if r < 0.05:
             steps.append('d:%d' % rng.randrange(5))
